@@ -7,6 +7,7 @@
 //! bounded number of deviations from the canonical one.
 
 mod agent;
+mod alone;
 mod prog;
 mod refint;
 
@@ -523,7 +524,13 @@ fn main() {
     set_checker(refint::checker);
     set_agent_factory(factory);
     if let Some(r) = ctx.replay_request() {
-        replay(&ctx, r);
+        if r["leg"].as_str() == Some("agent-alone") {
+            for (sig, det) in alone::replay(&r["detail"]) {
+                ctx.violation("replay", &sig, det);
+            }
+        } else {
+            replay(&ctx, r);
+        }
         ctx.finish("model_checking", "replay");
     }
     if let Ok(p) = std::env::var("C06_COUNT") {
@@ -571,6 +578,7 @@ fn main() {
         std::process::exit(0);
     }
     let quick = ctx.quick();
+    alone::run(&ctx);
     // (a grid worker process re-executes this binary only for its own schedule leg: skip the E4 legs there)
     if !vcommon::sched::is_worker() {
         // E4 (a): all ten slots
